@@ -178,6 +178,65 @@ pub fn explore(ex: &Ex) {
             }
         }
     });
+    // wide maps: n distinct labels plus a repeat of the label at position i placed at position j
+    let sizes: Vec<usize> = match ex.scale {
+        Scale::Small => vec![17],
+        Scale::Quick => vec![9, 17, 18, 33],
+        Scale::Thorough => vec![9, 16, 17, 18, 32, 33, 34, 65],
+    };
+    ex.bound("c12.decode.wide", "map_sizes", json!(sizes));
+    let mut wide: Vec<(Ty, usize)> = Vec::new();
+    for k in [Ty::Header, Ty::Key, Ty::Claims] {
+        for n in &sizes {
+            wide.push((k, *n));
+        }
+    }
+    par_partitions(ex.rep, wide, |(kind, n), l| {
+        // distinct labels valid for the map kind (extras only, so every map is otherwise valid)
+        let labels: Vec<Item> = (0..*n)
+            .map(|k| match kind {
+                Ty::Claims => {
+                    if k % 3 == 0 {
+                        t(&format!("c{}", k))
+                    } else {
+                        i(-70000 - k as i128)
+                    }
+                }
+                _ => {
+                    if k % 3 == 0 {
+                        t(&format!("x{}", k))
+                    } else if k % 3 == 1 {
+                        u(100 + k as u64)
+                    } else {
+                        i(-100 - k as i128)
+                    }
+                }
+            })
+            .collect();
+        for a in 0..*n {
+            for bpos in (a + 1)..=*n {
+                // repeat labels[a] at position bpos (after insertion the map has n+1 entries)
+                let mut entries: Vec<(Item, Item)> = labels.iter().map(|x| (x.clone(), u(0))).collect();
+                entries.insert(bpos, (labels[a].clone(), u(1)));
+                if *kind == Ty::Key {
+                    entries.insert(0, (u(1), u(1)));
+                }
+                let m = Item::Map(entries).det();
+                l.state(*n as u64);
+                l.count("c12.decode.wide");
+                ex.decode(l, "c12.decode.wide", *kind, Entry::Slice, &m);
+                if *kind == Ty::Header && (a == 0 || bpos == *n) {
+                    ex.decode(l, "c12.decode.wide", Ty::Protected, Entry::Bstr, &crate::spaces::wrap_bstr(&m));
+                }
+            }
+        }
+        // control: the same map without the repeat is accepted
+        let mut entries: Vec<(Item, Item)> = labels.iter().map(|x| (x.clone(), u(0))).collect();
+        if *kind == Ty::Key {
+            entries.insert(0, (u(1), u(1)));
+        }
+        ex.decode(l, "c12.decode.wide", *kind, Entry::Slice, &Item::Map(entries).det());
+    });
     // duplicates with differing values, and with a second independent fault (only rejection required)
     let extra: Vec<(Ty, Item)> = vec![
         (Ty::Header, map(vec![(u(9), u(1)), (u(9), u(2))])),
